@@ -23,7 +23,7 @@ func init() {
 			"R08-eof — 'never hangs': every loop in the scanner that consumes input leaves the loop when the current character is EOF (decided by partial evaluation of the loop's exit conditions with every character-producing call returning -1; pure predicates isIdent/isDecimal/isDigit are evaluated on -1). " +
 			"R08-comment — a long-bracket comment ends at its closing bracket: skipComments consumes no further input after scanMultilineString has returned (program text after an inline --[[ ]] on the same line is kept). R19-buffers/R17-rawread shared — LoadFile skips a first '#' line through the one line reader (whole, however long) and gives its newline back. R08-terminate:recursion — every recursive cycle among the compiler's functions passes through a function that counts the nesting against a constant bound and raises a compile error beyond it (a Go stack overflow is not recoverable). NOT decided: run-time (index / nil / assertion) panics inside compile.go, termination of the generated LALR driver, that all Lua 5.1 texts are accepted.",
 		Trusted: []string{"the goyacc-generated driver terminates on every token sequence"},
-		Rules:   []func(*Ctx){ruleHexPrefixOnce, ruleScannerSeesBytesOnly, ruleFlagRecomputedPerToken, ruleDepthCounterBalanced, ruleCallResultIndexing, ruleIndexCensusDebug, ruleAstKinds, ruleLoadPanics, ruleEOF, ruleTerminate, ruleLongComment, ruleOneLineReader, ruleShebangLine, ruleCompileRecursionBounded, ruleNumeralValidatedWhereSkipped, ruleReadBounded, ruleGlobals, ruleNoIntegerDivisionByUnknown},
+		Rules:   []func(*Ctx){ruleLabelScopeAtBlockEnd, ruleHexPrefixOnce, ruleScannerSeesBytesOnly, ruleFlagRecomputedPerToken, ruleDepthCounterBalanced, ruleCallResultIndexing, ruleIndexCensusDebug, ruleAstKinds, ruleLoadPanics, ruleEOF, ruleTerminate, ruleLongComment, ruleOneLineReader, ruleShebangLine, ruleCompileRecursionBounded, ruleNumeralValidatedWhereSkipped, ruleReadBounded, ruleGlobals, ruleNoIntegerDivisionByUnknown},
 	})
 }
 
